@@ -51,6 +51,11 @@ class Fragment:
         returned_by = ""
         while True:
             if isinstance(obj, Fragment):
+                if type(obj) is not Fragment:
+                    # `Instance` and similar objects are used as-is each time a design is elaborated;
+                    # forget the clock domains that an earlier elaboration has propagated into them,
+                    # or `ClockSignal()` in their ports would keep referring to those.
+                    obj.domains = OrderedDict()
                 if hasattr(obj, "origins"):
                     obj.origins = tuple(origins) + (obj.origins or ())
                 return obj
